@@ -332,4 +332,42 @@ def every_item_handled(F, fn, is_target, detail=None):
             if detail is not None:
                 detail.append("the closure can return normally without the call")
         res.append(("closure@%s" % b.site(abb), ok))
+    # a whole-iterator consumer outside any loop: `out.extend(items.iter().map(f))` handles every item iff every adapter
+    # between the container and the consumer passes every item on
+    in_loop = set()
+    for header, blocks in b.loops():
+        in_loop |= set(blocks)
+    for bi in tb:
+        t = b.term(bi)
+        n = callee_name(t) or ""
+        if bi in in_loop or not CONSUMERS.search(n) or len(t["args"]) < 2:
+            continue
+        ok, why = exhaustive_source(b, t["args"][1])
+        if not ok and detail is not None:
+            detail.append(why)
+        res.append(("consumer@%s" % b.site(bi), ok))
     return res
+
+
+CONSUMERS = re.compile(r"Extend<.*>>?::extend$|::extend_from_slice$|FromIterator<.*>>?::from_iter$|Iterator>?::collect$")
+LAZY_EXHAUSTIVE = re.compile(r"Iterator>?::(map|cloned|copied|enumerate|rev|chain|flat_map|flatten|inspect|peekable|by_ref)$|IntoIterator>?::into_iter$|::(iter|iter_mut|into_iter|values|keys|drain)$|Deref>?::deref$|AsRef<.*>>?::as_ref$|::as_slice$")
+
+
+def exhaustive_source(b, o, depth=0):
+    """does the iterator operand `o` yield every item of the container(s) it starts from?  (ok, reason)"""
+    if depth > 12:
+        return False, "iterator chain too deep to follow"
+    src = b.def_call(o)
+    if src is None:
+        return True, ""          # a container / slice handed over whole
+    n = callee_name(src) or ""
+    if not LAZY_EXHAUSTIVE.search(n):
+        return False, "the items pass through %s, which can drop or stop before some of them" % n.split("::")[-1]
+    if not src["args"]:
+        return True, ""
+    args = src["args"][:2] if n.endswith("::chain") else src["args"][:1]
+    for a in args:
+        ok, why = exhaustive_source(b, a, depth + 1)
+        if not ok:
+            return ok, why
+    return True, ""
